@@ -350,7 +350,7 @@ package service
 
 //@ guarded cipherList.{list} by cipherList.mu
 //@ guarded CipherEntry.{ID,CryptoKey,SaltGenerator} class immutable public fields are constant after MakeCipherEntry
-//@ guarded CipherEntry.{lastClientIP} class confined written only under cipherList.mu of the list that holds the entry (checked at the two access sites below)
+//@ guarded CipherEntry.{lastClientIP} under cipherList.mu the mutex of the list that holds the entry
 
 //@ pred matches(e *list.Element, ip netip.Addr) := ip != 0 && ip == as(e.Value, "*service.CipherEntry").lastClientIP
 
